@@ -87,7 +87,9 @@ def check(rep, an, tier):
                           msg="a generator/engine on the sampling path is not derived from the seed argument")
             if sd != None:
                 ent = sorted(o for o in v.data if o.startswith("entropy@"))
-                rep.check("R-SEED", "samples depend on the seed and on no unseeded source", ("seed" in v.data) and not ent, where=res.fn.loc(),
+                # a caller-supplied engine object carries its own state: the seed need not reach the samples then
+                rep.check("R-SEED", "samples depend on the seed and on no unseeded source", ("seed" in v.data or eng == "object") and not ent,
+                          where=res.fn.loc(),
                           construct="samples returned by sample_in_hull", entry=entry, config=cfg,
                           msg=f"unseeded entropy reaches the samples from {ent}" if ent else "seed does not reach the samples")
             for ev in res.events("ext_call"):
@@ -112,6 +114,21 @@ def check(rep, an, tier):
             if eng is None and v.shape is not None and v.shape.axes:
                 rep.check("R-SHAPE", "exactly n rows (pseudo-random branch)", v.shape.axes[0] == ("NSAMP",), where=res.fn.loc(),
                           construct="shape of the samples", entry=entry, config=cfg, msg=f"computed {v.shape}")
+            if eng is not None:
+                # the QMC branch returns one row per allocated sample: the per-simplex counts must sum to n
+                for ev in res.events("np_repeat"):
+                    reps = ev.d.get("reps")
+                    if reps is None or reps.tag("kind") != "ndarray" and reps.tag("sum_dim") is None and not reps.tag("rounded"):
+                        continue
+                    sd_ = reps.tag("sum_dim")
+                    st = True if sd_ == ("NSAMP",) else (False if (sd_ is not None or reps.tag("rounded")) else None)
+                    rep.check("R-SHAPE", "per-simplex counts sum to n (QMC branch)", st, where=ev.loc, construct=ev.text(), entry=entry,
+                              config=cfg,
+                              msg="the per-simplex sample counts are rounded shares (Σ round(p_i·n) ≠ n in general) or sum to "
+                                  f"{'⊗'.join(sd_) if sd_ else 'an unrelated total'}: the call returns a number of samples other than n")
+                if v.shape is not None and v.shape.axes and v.shape.axes[0] is not None:
+                    rep.check("R-SHAPE", "exactly n rows (QMC branch)", v.shape.axes[0] == ("NSAMP",), where=res.fn.loc(),
+                              construct="shape of the samples", entry=entry, config=cfg, msg=f"computed {v.shape}")
             R.rule_purity(rep, res, entry)
             R.rule_no_global_state(rep, res, entry)
     # dispatch of bad values
